@@ -525,7 +525,10 @@ class MediaSegmentInfo(SegmentInfoBase):
     decorators = [uses_media_file, uses_stream]
 
     def get(self, spk: int, mfid: int, segnum: int) -> flask.Response:
-        frag = current_media_file.representation.segments[int(segnum)]
+        rep = current_media_file.representation
+        if rep is None or int(segnum) >= len(rep.segments):
+            return flask.make_response(f'Segment {int(segnum)} not found', 404)
+        frag = rep.segments[int(segnum)]
         options = mp4.Options(lazy_load=False)
         if current_media_file.representation.encrypted:
             options.iv_size = current_media_file.representation.iv_size
